@@ -133,14 +133,17 @@ def stepEvent (lastRange : Option (Nat × Nat)) (ev : REv) (st : St) : Option St
         | [] => lastRange
       some { st with diags := st.diags ++ [⟨m, range⟩] }
 
+/-- the trivia loop that follows every event -/
+def afterEvent (st : St) : St :=
+  let r := attachTrivia st.rest st.off st.b
+  { st with rest := r.1, off := r.2.1, b := r.2.2 }
+
 def runEvents (lastRange : Option (Nat × Nat)) : List REv → St → Option St
   | [], st => some st
   | ev :: evs, st =>
       match stepEvent lastRange ev st with
       | none => none
-      | some st =>
-          let (rest, off, b) := attachTrivia st.rest st.off st.b
-          runEvents lastRange evs { st with rest := rest, off := off, b := b }
+      | some st => runEvents lastRange evs (afterEvent st)
 
 /-- `tokens.last().map(|t| t.range)` -/
 def lastRangeOf (toks : List Tok) : Option (Nat × Nat) := (ranges 0 toks).getLast?
@@ -186,10 +189,11 @@ def depthAfter (d : Nat) : REv → Option Nat
   | .finish => if d = 0 then none else some (d - 1)
   | _ => some d
 
-/-- after every event but the last the depth is ≥ 1; the last event brings it to 0 -/
+/-- after every event but the last the depth is ≥ 1; the last event is the `finish` that closes
+the root (depth 1 → 0) -/
 def balancedFrom : Nat → List REv → Bool
   | _, [] => false
-  | d, [ev] => depthAfter d ev == some 0
+  | d, [ev] => d == 1 && ev == .finish
   | d, ev :: evs => match depthAfter d ev with
       | some (d' + 1) => balancedFrom (d' + 1) evs
       | _ => false
